@@ -400,6 +400,7 @@ def check_ts_sync(rep, repo, tier):
              'uncut and cut into two buffers at every position (and into 1-, 2-, 3-octet slices; thorough tier: into three buffers at every pair of positions, and 5-, 7-octet slices), then flushed: every unit output has the packet size and '
              'starts with the sync octet; the units are disjoint, in-order pieces of the input (by token identity); and the sequence of units is the same '
              'for every cutting as for the uncut stream; a stream made of whole packets only (after optional leading junk) comes out entirely once flushed')
+    check_size_domain(rep, u)
     P = 4
     fin = u.funcs['upipe_ts_sync_input']
     ffl = u.funcs['upipe_ts_sync_flush']
@@ -481,6 +482,76 @@ PIPE_S = ('obj', 'pipe')
 
 
 U_CHECK = 'lib/upipe-ts/upipe_ts_check.c'
+
+
+def check_size_domain(rep, u):
+    """the packet size the loops of ts_sync divide the stream by is validated where the control command delivers it"""
+    from upv.facts import strip_all_casts, const_of, enum_name
+    rep.rule('R-size-domain', 'upipe_ts_sync takes output_size octets off the buffered stream per iteration of its input and flush loops (R-sync decides them for a '
+             'positive size): in its control function, every path from the entry to the call of the generated X_control_output_size, other than through the '
+             'false arm of a test command == UPIPE_SET_OUTPUT_SIZE, passes a comparison of the value read from the argument list with a positive constant '
+             'whose failing arm returns an error - a size of 0 makes both loops spin for ever on the first sync octet')
+    fn = u.funcs.get('upipe_ts_sync_control')
+    if fn is None or not fn.blocks:
+        raise facts.AnalysisBroken('anchor vanished: upipe_ts_sync_control')
+    ev = pr.Events(fn)
+    target = ev.find(pr.m_call('upipe_ts_sync_control_output_size'))
+    if not target:
+        raise facts.AnalysisBroken('anchor vanished: upipe_ts_sync_control no longer calls upipe_ts_sync_control_output_size')
+    born = set()
+    for _, _, x in fn.nodes():
+        if x.get('k') == 'decl':
+            for v in x['vars']:
+                i = strip_all_casts(v['init']) if isinstance(v.get('init'), dict) else None
+                if isinstance(i, dict) and i.get('k') == 'va_arg':
+                    born.add(v['n'])
+
+    def returns_error(b):
+        for st in fn.stmts(b):
+            if isinstance(st, dict) and st.get('k') == 'return' and isinstance(st.get('e'), dict):
+                en = enum_name(st['e'])
+                if en and en.startswith('UBASE_ERR_') and en != 'UBASE_ERR_NONE':
+                    return True
+        return False
+    succ = dict(fn.succ)
+    guards = []
+    for b in fn.blocks:
+        c = fn.cond(b)
+        if not c:
+            continue
+        e = strip_all_casts(c[0])
+        if not (isinstance(e, dict) and e.get('k') == 'bin'):
+            continue
+        l, r = strip_all_casts(fn.resolve(e['lhs'])), strip_all_casts(fn.resolve(e['rhs']))
+        if e.get('op') in ('==', '!='):
+            names = {enum_name(l), enum_name(r)}
+            refs = [x for x in (l, r) if isinstance(x, dict) and x.get('k') == 'ref' and x.get('n') == 'command']
+            if 'UPIPE_SET_OUTPUT_SIZE' in names and refs:
+                succ[b] = [c[1] if e['op'] == '==' else c[2]]      # look at the arm of the command only
+        elif e.get('op') in ('<', '<=', '>', '>='):
+            for a, k in ((l, r), (r, l)):
+                if isinstance(a, dict) and a.get('k') == 'ref' and a.get('n') in born and (const_of(k) or 0) > 0:
+                    if any(s is not None and returns_error(s) for s in (c[1], c[2])):
+                        guards.append(b)
+    from rules.c20 import _FnView
+    view = _FnView(fn, succ)
+    evv = pr.Events(view)
+    tgt = evv.find(pr.m_call('upipe_ts_sync_control_output_size'))
+    # is the call reachable from the entry without passing one of the guard blocks?
+    seen, work, escaped = set(), [fn.entry], False
+    tblocks = {t[0] for t in tgt}
+    while work:
+        b = work.pop()
+        if b in seen or b in guards:
+            continue
+        seen.add(b)
+        if b in tblocks:
+            escaped = True
+            break
+        work.extend(s for s in view.succ[b] if s is not None)
+    rep.add('R-size-domain', 'upipe_ts_sync_control:UPIPE_SET_OUTPUT_SIZE', VIOLATED if escaped else HOLDS, fn.loc,
+            guards=len(guards), **({'what': 'upipe_ts_sync_control hands UPIPE_SET_OUTPUT_SIZE to the generic helper, which stores any value, on a path that never compares '
+                                            'the size with a positive bound: with a size of 0 upipe_ts_sync_input / _flush extract nothing per iteration and never terminate'} if escaped else {}))
 
 
 def check_ts_check(rep, repo, tier):
